@@ -123,6 +123,11 @@ def cases(tier, seed=0):
                 if heavy(fk, D, uf):
                     continue
                 out.append(_case("measure", fk, "hadamard", uf, warm, D, R1, R2, N))
+    # equal batch sizes on both sides (R1 = R2 >= 2): the OUTER layout i*R2+j is still what multiply and * must return
+    for fk in fkinds:
+        for (D, R) in ((1, 2), (2, 2)) + (((1, 3),) if tier != "quick" else ()):
+            out.append(_case("measure", fk, "mul", False, False, D, R, R, 1))
+            out.append(_case("measure", fk, "multiply", True, True, D, R, R, 1))
     # measure kinds other than the plain measure (a density or a diagonal measure as left operand)
     for uk in ("pdf", "diagmeasure", "diagpdf"):
         for fk in ("conjugate", "onerank", "linear"):
